@@ -240,15 +240,18 @@ func (m *Manager) Update(ctx context.Context, p PinnedSettings) error {
 		return fmt.Errorf("max collateral must be greater than 0")
 	}
 
+	// persist first: a failed write must leave the in-memory pinned settings untouched
+	if err := m.store.UpdatePinnedSettings(ctx, p); err != nil {
+		return fmt.Errorf("failed to update pinned settings: %w", err)
+	}
+
 	m.mu.Lock()
 	if m.settings.Currency != p.Currency {
 		m.rates = m.rates[:0] // currency has changed, reset rates
 	}
 	m.settings = p
 	m.mu.Unlock()
-	if err := m.store.UpdatePinnedSettings(ctx, p); err != nil {
-		return fmt.Errorf("failed to update pinned settings: %w", err)
-	} else if err := m.updatePrices(ctx, true); err != nil {
+	if err := m.updatePrices(ctx, true); err != nil {
 		return fmt.Errorf("failed to update prices: %w", err)
 	}
 	return nil
